@@ -51,7 +51,7 @@ out += ["", f"Summary: {caught} caught, {killed} already killed by the repositor
 "## 3. Silence on the pristine tree\n",
 "`sensitivity/silence.txt` (produced by `tools/silence.sh` with the final checks): every check over 100 different `VERIF_SEED` values",
 "(300..399, a tenth of the quick budget each) on the unchanged tree: no VIOLATION line, exit 0 every time.  Earlier versions of the",
-"checks were run the same way over seeds 100..199 and 200..299, and the thorough tier over seeds 7, 11, 21, 31, 41, 51, 71, 81: silent.",
+"checks were run the same way over seeds 100..199 and 200..299, and the thorough tier over seeds 7, 11, 21, 31, 41, 51 (earlier versions; the only alarm was the C05 false alarm of DESIGN.md 7 correction 7, at seed 21) and 71, 81 (final checks): silent.",
 "`sensitivity/determinism.txt` (`tools/determinism.sh 512`): plan digests and history digests identical across six executions per",
 "property at worker counts 1, 4, 16, 16, 4, 1.\n"]
 open(V + '/SENSITIVITY.md','w').write("\n".join(out))
